@@ -1,7 +1,77 @@
 import SshAudit.Driver.WireOps
+import SshAudit.Driver.ReportOps
+import SshAudit.Driver.OutputOps
+import SshAudit.Model.Lookup
+import SshAudit.Gen.KexDB
 namespace SshAudit.Driver
+open SshAudit
 
-/-- stub: filled in by the builder of this extension -/
-def lookupOp (_op : String) (_args : List String) : Option J := none
+/-- the set order observed on the implementation, per category; used only if it is a permutation of the model's own set (otherwise database order,
+    and the comparison of the text fails) -/
+def orderOf (given : List (Str × List Str)) : Lookup.SetOrder := fun c l =>
+  match given.find? (·.1 = c) with
+  | some (_, g) => if g.isPerm l then g else l
+  | none => l
+
+def decOrders : List String → Option (List (Str × List Str))
+  | [k, h, m, e] => do
+    let k ← decStrs k; let h ← decStrs h; let m ← decStrs m; let e ← decStrs e
+    pure [(Report.kexC, k), (Report.keyC, h), (Report.macC, m), (Report.encC, e)]
+  | _ => none
+
+def jsugg (g : Lookup.Suggestion) : J := .arr [.str g.unknown, .str g.cat, .str g.name]
+
+def lookupData (o : Lookup.SetOrder) (names : List Str) : List (String × J) :=
+  let db := Gen.ssh2db
+  [("requested", J.ofStrs names), ("pad", .nat (Lookup.padding names)),
+   ("found", .obj (Lookup.algTypes.map fun ct => (String.ofList ct.1, J.ofStrs (Lookup.found db names ct.1)))),
+   ("sections", .arr ((Lookup.sections o db names).map fun sc => .obj [("cat", .str sc.cat), ("title", .str sc.title), ("lines", .arr (sc.lines.map jline))])),
+   ("notFound", J.ofStrs (Lookup.notFound db names)),
+   ("similar", .arr ((Lookup.similar db names).map jsugg)),
+   ("status", .nat (Lookup.status o db names))]
+
+/-- `mvdbnj:L` — manual, verbose, debug, batch, noColors, json as 0/1, then the level number -/
+def decMainArgs (tok : String) (lk : Option Str) : Option Lookup.MainArgs :=
+  match tok.splitOn ":" with
+  | [flags, lv] => do
+    let lv ← decNat lv
+    match flags.toList with
+    | [m, v, d, b, n, j] => do
+      let f (ch : Char) : Option Bool := if ch = '1' then some true else if ch = '0' then some false else none
+      let m ← f m; let v ← f v; let d ← f d; let b ← f b; let n ← f n; let j ← f j
+      pure { manual := m, verbose := v, debug := d, batch := b, level := lv, noColors := n, json := j, lookup := lk }
+    | _ => none
+  | _ => none
+
+/-- `lookup.run <cfg> <arg> <order kex> <order key> <order mac> <order enc>`: `algorithm_lookup` on the generated SSH-2 database.
+    `lookup.main <mvdbnj:L> <arg|~> <orders…>`: `main()` up to `sys.exit`.
+    `lookup.similar <unknown> <name>`: the similarity rule on one pair. -/
+def lookupOp (op : String) (args : List String) : Option J :=
+  match op with
+  | "lookup.run" =>
+    match args with
+    | c :: a :: ords => do
+      let cfg ← decCfg c; let arg ← decStr a; let given ← decOrders ords
+      let o := orderOf given
+      pure (match Lookup.run cfg o Gen.ssh2db arg with
+        | .ok r => jok (.obj ([("entries", J.ofStrs r.entries), ("retval", .nat r.status),
+                              ("closed", J.ofStrs (Lookup.closed cfg o Gen.ssh2db (Lookup.requested arg)))] ++ lookupData o (Lookup.requested arg)))
+        | .error e => jerr e)
+    | _ => none
+  | "lookup.main" =>
+    match args with
+    | f :: a :: ords => do
+      let lk ← decOptStr a; let ma ← decMainArgs f lk; let given ← decOrders ords
+      pure (match Lookup.main ma (orderOf given) Gen.ssh2db with
+        | .manual => jok (.obj [("kind", .str "manual".toList)])
+        | .other => jok (.obj [("kind", .str "other".toList)])
+        | .lookup so ex => jok (.obj [("kind", .str "lookup".toList), ("stdout", .str (Output.outText so)), ("exit", .nat ex)])
+        | .crash e => jerr e)
+    | _ => none
+  | "lookup.similar" =>
+    match args with
+    | [u, k] => do let u ← decStr u; let k ← decStr k; pure (jok (.bool (Lookup.similarTo u k)))
+    | _ => none
+  | _ => none
 
 end SshAudit.Driver
